@@ -221,7 +221,11 @@ def binop(st, op, a, b):
             raise Unsupported(f"constant arithmetic raised {e!r}") from e
     if isinstance(op, ast.Add) and (isinstance(a, str) or is_sym(a, "str")):
         return Sym("str", z3.Concat(zstr(a), zstr(b)))
-    if is_sym(a, "dt") or is_sym(b, "dt"):
+    if is_sym(a, "dt") and is_sym(b, "dt") and isinstance(op, ast.Sub):
+        return Sym("td", dt_ts(a.t) - dt_ts(b.t))   # timedelta as exact seconds (datetime arithmetic is integer microseconds: no rounding)
+    if is_sym(a, "td") and is_sym(b, "td") and isinstance(op, ast.FloorDiv):
+        return Sym("int", z3.ToInt(a.t / b.t))      # floor of the exact quotient (divisor positive: a constant unit)
+    if is_sym(a, "dt") or is_sym(b, "dt") or is_sym(a, "td") or is_sym(b, "td"):
         raise Unsupported("datetime arithmetic")
     real = is_realish(a) or is_realish(b) or isinstance(op, (ast.Div, ast.Pow))
     if isinstance(op, ast.Pow):
